@@ -22,6 +22,8 @@ lock structure of the source.
 import Mqtt.Proofs.ClientRefine
 import Mqtt.Proofs.ClientIds
 import Mqtt.Proofs.AckLock
+import Mqtt.Proofs.ClientQueues
+import Mqtt.Properties.C13
 
 set_option linter.unusedSimpArgs false
 
@@ -956,5 +958,280 @@ theorem C12_ack_lock_structure_is_source :
   exact ⟨⟨s1, s2, s3, s4, s7, s8, s10, s11⟩, p1, p2, p5, p7, p9, p10⟩
 
 end AckLock
+
+/-! ## (g) the ack queues of the client model are `sessions.Ackqueue`
+
+The client model keeps its five identifier-keyed queues (`pub1ack`, `pub2out`, `pub2in`, `suback`,
+`unsuback`: `QKind`) as lists of `Req` with `Queue.wait` / `Queue.ack` / `Queue.acked`, and the ping
+FIFO of `Pingack` as a list of `(state, tag)` with `pingAck` / `pingAcked`.  The code keeps six
+`sessions.Ackqueue` objects (ring buffer + index map + ping FIFO, `Model/AckQueue.lean`).
+`Proofs/ClientQueues.lean` has the vocabulary:
+
+* `COp` - `wait id tag pub topics cb` (= `Queue.wait` of the request as the model registers it),
+  `ack t id codes`, `acked`; `cstep` / `crun` the list semantics; `toOp cd k` the same call on the
+  `Ackqueue` (`Wait` with the message type and QoS of queue `k`, `Ack` with type, identifier, bytes);
+* `proj cd k` - the entry a request stands for; `Coding` (`enc`, `ackb`, `clo`) supplies what the
+  real queue stores in another form: the bytes of the request (`Msgbuf`), the bytes of the
+  acknowledgement (`Ackbuf`; the model keeps the type and, of a SUBACK, the return codes), the
+  `OnComplete` value (the model keeps the completion tag and the message callback).  The theorems
+  hold for *every* `Coding`; `C12_queue_decodes` adds what is assumed for the way back;
+* `POp` (`ping tag`, `resp`, `acked`), `pstep` / `prun`, `toPOp`, `pproj` for the pings;
+* `evOps k c ev` / `histOps`, `evPOps` / `histPOps` - the calls a client event makes on a queue.
+
+Not represented on the client's side: `Wait` of a request whose `Encode` fails (`enc = none` in
+`Model.AckQueue.insert`: nothing is stored) - the client model has no such outcome, `toOp` always
+passes `some` bytes (for the messages the API builds, `C03_reachable_encode_succeeds`). -/
+
+section Queues
+open Mqtt.Proofs.ClientQueues
+open Mqtt.Spec
+
+/-- **(g), simulation.**  On every list, each operation of the client model is the FIFO
+specification's operation on the projected queue: `Queue.wait` is `register` (a registration under
+an identifier that is in flight is dropped), `Queue.ack` with an identifier-bearing type is `ackId`
+(an unknown identifier changes nothing), `Queue.acked` is `collect` (the maximal prefix of requests
+whose last acknowledgement ends the exchange - the model's `terminal`, from the regenerated
+`ackedReleaseStates`, is the protocol's); and so is every history of them, outputs included. -/
+theorem C12_queue_is_fifo (cd : Coding) (k : QKind) (q : Queue) :
+    (∀ pg id tag pub topics cb,
+      Fifo.register ⟨q.map (proj cd k), pg⟩ ⟨k.mtype, 0, id, cd.enc id pub topics, [], cd.clo tag cb⟩ =
+        ⟨(q.wait (mkReq id tag pub topics cb)).map (proj cd k), pg⟩) ∧
+    (∀ pg t id codes, Fifo.isIdAck t = true →
+      Fifo.ackId ⟨q.map (proj cd k), pg⟩ t id (cd.ackb t id codes) = ⟨(q.ack t id codes).map (proj cd k), pg⟩) ∧
+    (∀ pg, Fifo.collect ⟨q.map (proj cd k), pg⟩ =
+      (⟨q.acked.1.map (proj cd k), pg⟩, q.acked.2.map (proj cd k))) ∧
+    (∀ t, terminal t = Fifo.terminal t) ∧
+    (∀ ops : List COp, OkOps ops →
+      (Fifo.run ⟨q.map (proj cd k), []⟩ (ops.map (toOp cd k))).1 = ⟨(crun q ops).1.map (proj cd k), []⟩ ∧
+      (Fifo.run ⟨q.map (proj cd k), []⟩ (ops.map (toOp cd k))).2 =
+        (List.zip (crun q ops).2 ops).map (fun x => cout cd k x.1 x.2)) :=
+  ⟨fun pg id tag pub topics cb => sim_register cd k q pg id tag pub topics cb,
+   fun pg t id codes ht => sim_ackId cd k q pg t id codes ht,
+   fun pg => sim_collect cd k q pg, terminal_eq, fun ops h => sim_run cd k q ops h⟩
+
+/-- **(g), composed with C13: each of the five queues is an `Ackqueue`.**  For every queue kind,
+every `Coding` and every history `ops` of `wait` / `ack` / `acked` operations (`OkOps`: the `ack`s
+bear one of the six identifier-carrying types - all the client role ever passes, `C12_queue_ops`),
+starting from the queue a session creates: the abstraction of the ring-based ack queue after the
+corresponding `Wait` / `Ack` / `Acked` calls *is* the projection of the list the client model holds,
+every `Acked` hands back the projection of the requests the list releases, and the object's ping
+FIFO stays empty (so the "answered pings first" part of `Acked()`'s result is always empty here). -/
+theorem C12_queue_is_ackqueue (cd : Coding) (k : QKind) (ops : List COp) (hops : OkOps ops) :
+    Mqtt.Proofs.AckQueue.abs (Mqtt.Model.AckQueue.run Mqtt.Model.AckQueue.init (ops.map (toOp cd k))).1 =
+      ⟨(crun [] ops).1.map (proj cd k), []⟩ ∧
+    (Mqtt.Model.AckQueue.run Mqtt.Model.AckQueue.init (ops.map (toOp cd k))).2.map C13.outAbs =
+      (List.zip (crun [] ops).2 ops).map (fun x => cout cd k x.1 x.2) := by
+  obtain ⟨h1, h2⟩ := C13.C13_refines_init (ops.map (toOp cd k))
+  obtain ⟨s1, s2⟩ := sim_run cd k [] ops hops
+  exact ⟨h1.trans s1, h2.trans s2⟩
+
+/-- **(g), the ping FIFO is the `Ackqueue` `Pingack`.**  For every history of `ping` / `resp` /
+`acked` operations (no side condition), starting from the queue a session creates: the ping FIFO of
+the ring-based ack queue after the corresponding `Wait(PINGREQ)` / `Ack(PINGRESP)` / `Acked` calls is
+the projection of the list the client model holds (`preq`, `presp`: the bytes of a PINGREQ and of a
+PINGRESP), every `Acked` hands back the projection of the pings the list releases, and the ring part
+of the object stays empty. -/
+theorem C12_pings_are_ackqueue (preq presp : List UInt8) (ops : List POp) :
+    Mqtt.Proofs.AckQueue.abs (Mqtt.Model.AckQueue.run Mqtt.Model.AckQueue.init (ops.map (toPOp preq presp))).1 =
+      ⟨[], (prun [] ops).1.map (pproj preq presp)⟩ ∧
+    (Mqtt.Model.AckQueue.run Mqtt.Model.AckQueue.init (ops.map (toPOp preq presp))).2.map C13.outAbs =
+      (List.zip (prun [] ops).2 ops).map (fun x => pout preq presp x.1 x.2) := by
+  obtain ⟨h1, h2⟩ := C13.C13_refines_init (ops.map (toPOp preq presp))
+  obtain ⟨s1, s2⟩ := psim_run preq presp [] ops
+  exact ⟨h1.trans s1, h2.trans s2⟩
+
+/-- **The order inside `Acked()`'s result is never observed.**  `Acked()` returns the answered pings
+first, then the released ring entries.  The client role registers pings in `Pingack` only and
+identified requests in the other five objects only, so in every state any of the six objects reaches
+one of the two segments of the next `Acked()` is empty. -/
+theorem C12_acked_order_unobserved (cd : Coding) (k : QKind) (ops : List COp) (hops : OkOps ops)
+    (preq presp : List UInt8) (pops : List POp) :
+    (Fifo.collectPings (Mqtt.Proofs.AckQueue.abs
+      (Mqtt.Model.AckQueue.run Mqtt.Model.AckQueue.init (ops.map (toOp cd k))).1)).2 = [] ∧
+    (Fifo.collect (Mqtt.Proofs.AckQueue.abs
+      (Mqtt.Model.AckQueue.run Mqtt.Model.AckQueue.init (pops.map (toPOp preq presp))).1)).2 = [] := by
+  rw [(C12_queue_is_ackqueue cd k ops hops).1, (C12_pings_are_ackqueue preq presp pops).1]
+  exact ⟨rfl, rfl⟩
+
+/-- **What the client does to its queues per event** is `evOps k c ev` (`evPOps c ev` for the pings),
+in every state, for every event (the composite early-acknowledgement event included): the API calls
+end in one `Wait` on the queue of their kind (`regOps`; QoS 0 registers nothing); `processIncoming`
+makes one `Wait` (inbound QoS 2 PUBLISH), one `Ack` (PUBREC) or one `Ack` followed by `Acked`
+(`peerOps`); nothing happens before `Connect` has succeeded.  All these calls satisfy `OkOps` and
+`TidyOps`.  The requests the model hands to its completion wrappers (to `onPublish` for the inbound
+queue) are the outputs of those calls. -/
+theorem C12_queue_ops (k : QKind) (c : C) (ev : Ev) (p : Packet) (id : Nat) :
+    qof k (step c ev).1 = (crun (qof k c) (evOps k c ev)).1 ∧
+    OkOps (evOps k c ev) ∧ TidyOps (evOps k c ev) ∧
+    (step c ev).1.pings = (prun c.pings (evPOps c ev)).1 ∧
+    (∀ kk : Kind, peerReleased kk c p = relOf (ofKind kk) c p) ∧
+    peer c (.pubrel id) =
+      ({ c with pub2in := (crun c.pub2in (peerOps .pub2in (.pubrel id))).1 },
+       (relOf .pub2in c (.pubrel id)).flatMap
+          (fun r => match r.pub with
+            | some pb => onPublish { c with pub2in := (crun c.pub2in (peerOps .pub2in (.pubrel id))).1 } pb
+            | none => []) ++
+        [.wrote (.pubcomp id)]) ∧
+    peer c .pingresp =
+      ({ c with pings := (prun c.pings (peerPOps .pingresp)).1 },
+       (pingRelOf c .pingresp).flatMap (fun e => completeOut e.2 false)) :=
+  ⟨(step_qof k c ev).1, (step_qof k c ev).2, evOps_tidy k c ev, step_pings_ops c ev,
+   (peer_released c p id).1, (peer_released c p id).2.1, (peer_released c p id).2.2⟩
+
+/-- **(g), end to end.**  For *every* history of client events (API calls, packets from the peer,
+early acknowledgements; no hypothesis), every `Coding` and every queue kind: the list the client
+model holds after the history is - under `proj` - the abstraction of the ring-based `Ackqueue`
+driven from its initial state by the `Wait` / `Ack` / `Acked` calls the history makes on that queue;
+and the ping list is the ping FIFO of `Pingack` driven by the history's ping calls. -/
+theorem C12_client_queues_are_ackqueues (cd : Coding) (preq presp : List UInt8) (evs : List Ev) :
+    (∀ k : QKind,
+      Mqtt.Proofs.AckQueue.abs
+        (Mqtt.Model.AckQueue.run Mqtt.Model.AckQueue.init ((histOps k init evs).map (toOp cd k))).1 =
+        ⟨(qof k (runState init evs)).map (proj cd k), []⟩) ∧
+    Mqtt.Proofs.AckQueue.abs
+      (Mqtt.Model.AckQueue.run Mqtt.Model.AckQueue.init ((histPOps init evs).map (toPOp preq presp))).1 =
+      ⟨[], (runState init evs).pings.map (pproj preq presp)⟩ := by
+  refine ⟨fun k => ?_, ?_⟩
+  · obtain ⟨h1, h2⟩ := run_qof k init evs
+    have hq : qof k init = [] := by cases k <;> rfl
+    rw [hq] at h1
+    rw [(C12_queue_is_ackqueue cd k _ h2).1, h1]
+  · rw [(C12_pings_are_ackqueue preq presp _).1, run_pings_ops]; rfl
+
+/-- **Back through the bytes.**  `processAcked` decodes `Msgbuf` and `Ackbuf` again; the client
+model keeps the decoded request and the return codes.  Under the round-trip hypothesis
+`RoundTrip cd dc` (decoding the bytes of a request gives back identifier, PUBLISH fields and
+filters; decoding a SUBACK gives back its return codes, other acknowledgements have none; an
+`OnComplete` value determines its callbacks) nothing is lost: for every history of client events,
+decoding the entries of the ring-based queue gives exactly the list the client model holds, and
+decoding what any `Acked` of any history of tidy operations hands back gives exactly the requests
+the list releases. -/
+theorem C12_queue_decodes (cd : Coding) (dc : Decoding) (rt : RoundTrip cd dc) (k : QKind) :
+    (∀ evs : List Ev,
+      (Mqtt.Proofs.AckQueue.abs
+        (Mqtt.Model.AckQueue.run Mqtt.Model.AckQueue.init ((histOps k init evs).map (toOp cd k))).1).q.map
+          (unproj dc) = qof k (runState init evs)) ∧
+    (∀ ops : List COp, TidyOps ops →
+      ∀ l ∈ (crun [] ops).2, (l.map (proj cd k)).map (unproj dc) = l) := by
+  constructor
+  · intro evs
+    obtain ⟨h1, _⟩ := run_qof k init evs
+    rw [(C12_client_queues_are_ackqueues cd [] [] evs).1 k]
+    have ht := (tidy_crun (q := []) (by intro r hr; cases hr) _ (histOps_tidy k init evs)).1
+    have hq : qof k init = [] := by cases k <;> rfl
+    rw [hq] at h1
+    rw [← h1] at ht
+    exact map_unproj_proj rt k _ ht
+  · intro ops hops l hl
+    exact map_unproj_proj rt k l ((tidy_crun (q := []) (by intro r hr; cases hr) ops hops).2 l hl)
+
+/-- **C13's exactly-once FIFO hand-back, on the client's queues.**  Over any history of
+operations, the requests `Wait` accepted (`C13.accepted`: a duplicate registration is not among
+them) are the requests `Acked` handed back so far followed by the projection of the list the client
+model still holds - compared on packet type, identifier, request bytes and `OnComplete` value. -/
+theorem C12_queue_exactly_once (cd : Coding) (k : QKind) (ops : List COp) (hops : OkOps ops) :
+    (C13.released Fifo.empty (ops.map (toOp cd k)) ++ (crun [] ops).1.map (proj cd k)).map C13.key =
+      (C13.accepted Fifo.empty (ops.map (toOp cd k))).map C13.key := by
+  have h := C13.C13_exactly_once_fifo Fifo.empty (ops.map (toOp cd k))
+  have s1 := (sim_run cd k [] ops hops).1
+  have he : (⟨([] : Queue).map (proj cd k), []⟩ : Fifo.S) = Fifo.empty := rfl
+  rw [he] at s1
+  rw [s1] at h
+  simpa [Fifo.empty] using h
+
+/-- **An acknowledgement for an identifier that is not in flight is a no-op on both sides**: the
+list is unchanged, and the whole state of the ring-based queue (ring, index map, counters) is
+unchanged. -/
+theorem C12_queue_unknown_ack_noop (cd : Coding) (k : QKind) (ops : List COp) (hops : OkOps ops)
+    (t id : Nat) (codes : List Nat) (ht : Fifo.isIdAck t = true)
+    (hid : ∀ r ∈ (crun [] ops).1, r.id ≠ id) :
+    (crun [] ops).1.ack t id codes = (crun [] ops).1 ∧
+    (Mqtt.Model.AckQueue.step
+      (Mqtt.Model.AckQueue.run Mqtt.Model.AckQueue.init (ops.map (toOp cd k))).1
+      (.ack t id (cd.ackb t id codes))).1 =
+      (Mqtt.Model.AckQueue.run Mqtt.Model.AckQueue.init (ops.map (toOp cd k))).1 := by
+  constructor
+  · unfold Queue.ack
+    conv => rhs; rw [← List.map_id (crun [] ops).1]
+    apply List.map_congr_left
+    intro e he
+    have : (e.id == id) = false := by simpa using hid e he
+    simp [this]
+  · have hinv := (C13.C13_refines _ C13.fullInv_init (ops.map (toOp cd k))).1
+    apply C13.C13_unknown_ack_noop _ hinv t id _ ht
+    rw [(C12_queue_is_ackqueue cd k ops hops).1]
+    intro e he
+    obtain ⟨r, hr, rfl⟩ := List.mem_map.mp he
+    exact hid r hr
+
+/-- the side condition `OkOps` is needed for the operation vocabulary at large (not for the client,
+which never does this): with type PINGRESP, `Queue.ack` marks the request bearing the identifier
+while `Ackqueue.Ack` looks for a ping - the request is released on the list, not by the ring -/
+theorem C12_queue_is_ackqueue_other_type_counterexample :
+    let cd : Coding := ⟨fun _ _ _ => [], fun _ _ _ => [], fun t _ => t⟩
+    let ops : List COp := [.wait 1 7 none [] 0, .ack 13 1 [], .ack 4 1 [], .ack 13 1 [], .acked]
+    ¬ OkOps ops ∧
+    (crun [] ops).2.map (·.map (·.id)) = [[], [], [], [], []] ∧
+    (Mqtt.Model.AckQueue.run Mqtt.Model.AckQueue.init (ops.map (toOp cd .pub1ack))).2.map C13.outAbs =
+      [.ok true, .ok true, .ok true, .ok true, .released [⟨3, 4, 1, [], [], 7⟩]] := by
+  refine ⟨by decide, by decide, by decide +kernel⟩
+
+/-- non-vacuity: QoS 1 publishes 1, 2, 3 registered, 2 registered again with another payload
+(dropped on both sides), PUBACK 3 and 2 out of order (nothing released: 1 is older), a PUBACK for 9
+(not in flight), PUBACK 1: all three handed back in registration order, 2 with its *first* payload -/
+example :
+    let cd : Coding := ⟨fun id pub _ => [id.toUInt8] ++ (pub.map (·.payload)).getD [],
+                        fun t id codes => [t.toUInt8, id.toUInt8] ++ codes.map (·.toUInt8), fun t cb => 100 * cb + t⟩
+    let p : Nat → Nat → Pub := fun id x => { qos := 1, topic := [97], pktid := id, payload := [x.toUInt8] }
+    let ops : List COp :=
+      [.wait 1 11 (some (p 1 1)) [] 0, .wait 2 12 (some (p 2 2)) [] 0, .wait 3 13 (some (p 3 3)) [] 0,
+       .wait 2 14 (some (p 2 9)) [] 0, .ack 4 3 [], .acked, .ack 4 2 [], .acked, .ack 4 9 [], .ack 4 1 [], .acked]
+    OkOps ops ∧
+    (crun [] ops).2.map (·.map (fun r => (r.id, r.tag, r.state))) =
+      [[], [], [], [], [], [], [], [], [], [], [(1, 11, 4), (2, 12, 4), (3, 13, 4)]] ∧
+    (Mqtt.Model.AckQueue.run Mqtt.Model.AckQueue.init (ops.map (toOp cd .pub1ack))).2.map C13.outAbs =
+      [.ok true, .ok true, .ok true, .ok true, .ok true, .released [], .ok true, .released [], .ok true, .ok true,
+       .released [⟨3, 4, 1, [1, 1], [4, 1], 11⟩, ⟨3, 4, 2, [2, 2], [4, 2], 12⟩, ⟨3, 4, 3, [3, 3], [4, 3], 13⟩]] := by
+  refine ⟨by decide, by decide, by decide +kernel⟩
+
+/-- a SUBACK's return codes travel as bytes; a QoS 2 publish sees PUBREC, PUBCOMP, and a late PUBREC
+that takes it back to non-terminal on both sides (the state regression of Core C) before the final
+PUBCOMP -/
+example :
+    let cd : Coding := ⟨fun id _ topics => [id.toUInt8] ++ topics.map (fun t => t.2.toUInt8),
+                        fun t id codes => [t.toUInt8, id.toUInt8] ++ codes.map (·.toUInt8), fun t cb => 100 * cb + t⟩
+    let sops : List COp := [.wait 4 15 none [([97, 47, 43], 1), ([98], 0)] 9, .ack 9 4 [1, 128], .acked]
+    let p : Pub := { qos := 2, topic := [97], pktid := 5, payload := [] }
+    let qops : List COp := [.wait 5 16 (some p) [] 0, .wait 6 17 (some p) [] 0, .ack 5 6 [], .ack 7 6 [], .ack 5 6 [],
+       .ack 7 5 [], .acked, .ack 7 6 [], .acked]
+    (Mqtt.Model.AckQueue.run Mqtt.Model.AckQueue.init (sops.map (toOp cd .suback))).2.map C13.outAbs =
+      [.ok true, .ok true, .released [⟨8, 9, 4, [4, 1, 0], [9, 4, 1, 128], 915⟩]] ∧
+    (crun [] sops).2.map (·.map (fun r => (r.id, r.codes))) = [[], [], [(4, [1, 128])]] ∧
+    (crun [] qops).2.map (·.map (fun r => (r.id, r.state))) = [[], [], [], [], [], [], [(5, 7)], [], [(6, 7)]] ∧
+    (Mqtt.Model.AckQueue.run Mqtt.Model.AckQueue.init (qops.map (toOp cd .pub2out))).2.map C13.outAbs =
+      [.ok true, .ok true, .ok true, .ok true, .ok true, .ok true, .released [⟨3, 7, 5, [5], [7, 5], 16⟩],
+       .ok true, .released [⟨3, 7, 6, [6], [7, 6], 17⟩]] := by
+  refine ⟨by decide +kernel, by decide, by decide, by decide +kernel⟩
+
+/-- three pings, PINGRESPs and collects interleaved, a PINGRESP with nothing outstanding -/
+example :
+    let ops : List POp := [.ping 1, .ping 2, .resp, .ping 3, .resp, .acked, .resp, .resp, .acked, .acked]
+    (prun [] ops).2 = [[], [], [], [], [], [(13, 1), (13, 2)], [], [], [(13, 3)], []] ∧
+    (Mqtt.Model.AckQueue.run Mqtt.Model.AckQueue.init (ops.map (toPOp [0xc0, 0] [0xd0, 0]))).2.map C13.outAbs =
+      [.ok true, .ok true, .ok true, .ok true, .ok true,
+       .released [⟨12, 13, 0, [0xc0, 0], [0xd0, 0], 1⟩, ⟨12, 13, 0, [0xc0, 0], [0xd0, 0], 2⟩],
+       .ok true, .ok true, .released [⟨12, 13, 0, [0xc0, 0], [0xd0, 0], 3⟩], .released []] := by
+  refine ⟨by decide, by decide +kernel⟩
+
+/-- the calls the history `demoC` (out-of-order PUBACKs, a re-used identifier) makes on `Pub1ack`
+and on `Pub2out` -/
+example :
+    (histOps .pub1ack init demoC).length = 8 ∧
+    (histOps .pub2out init demoC).length = 4 ∧
+    OkOps (histOps .pub1ack init demoC) ∧
+    (qof .pub1ack (runState init demoC)).map (·.id) = [3, 1] := by
+  decide
+
+end Queues
 
 end Mqtt.Properties.C12
